@@ -88,7 +88,7 @@ func configs(quick bool) []Cfg {
 		{Name: "sub-second-exec-time", CurN: 2, CurT: 2, IncN: 2, IncT: 1, Spare: true, SigningPeriod: 3, MaxSigningAttempt: 1, CreationPeriod: 8,
 			InitDE: 3, MaxProposals: 2, MaxReq: 1, MaxTransitionSec: 20, FeePerSigner: 7, Events: append(append([]string{}, frac...), "req", "jump"), Depth: 8},
 		{Name: "overlapping-membership", CurN: 3, CurT: 2, IncN: 3, IncT: 2, SameAccounts: true, SigningPeriod: 2, MaxSigningAttempt: 2, CreationPeriod: 8,
-			InitDE: 6, MaxProposals: 1, MaxReq: 2, MaxTransitionSec: 90, FeePerSigner: 5, Events: append(append([]string{}, overlap...), "sigany", "reqgov", "jumpexec"), Depth: 11},
+			InitDE: 6, MaxProposals: 1, MaxReq: 2, MaxTransitionSec: 90, FeePerSigner: 5, Events: append(append([]string{}, overlap...), "sigany", "reqgov", "jumpexec"), Depth: 9},
 	}
 }
 
